@@ -769,7 +769,10 @@ fn gen_op(n_slots: usize, n_digests: usize, invalid_bias: u32) -> Op {
 fn make_digests(n: usize) -> Vec<MethodDigest> {
   // Digests of methods that differ only in the fragment, or only in the key: they must stay distinct entries.
   let did = CoreDID::parse("did:sim:ks").unwrap();
-  let combos: [(&str, u8); 3] = [("a", 1), ("a", 2), ("b", 1)];
+  let mut combos: Vec<(String, u8)> = vec![("a".to_owned(), 1), ("a".to_owned(), 2), ("b".to_owned(), 1)];
+  for i in 3..n {
+    combos.push((format!("m{i}"), (i % 5) as u8 + 1));
+  }
   let v: Vec<MethodDigest> = combos
     .iter()
     .take(n)
@@ -777,7 +780,7 @@ fn make_digests(n: usize) -> Vec<MethodDigest> {
       let mut seed = [0u8; 32];
       seed[0] = *key;
       let jwk = jwk_from_json(serde_json::json!({"kty":"OKP","crv":"Ed25519","x": ed25519_public_x(&seed), "alg":"EdDSA"}));
-      let m = VerificationMethod::new_from_jwk(did.clone(), jwk, Some(frag)).expect("method builds");
+      let m = VerificationMethod::new_from_jwk(did.clone(), jwk, Some(frag.as_str())).expect("method builds");
       MethodDigest::new(&m).expect("digest builds")
     })
     .collect();
@@ -845,17 +848,27 @@ impl Engine for KsEngine {
     let max_clients = params.get("max_clients").copied().unwrap_or(16) as usize;
     // ---- configuration ----
     let race_mode = ctx::choose(3) == 2;
-    let n_clients = match ctx::weighted(&[4, 4, 3, 2, 1]) {
-      0 => 2,
-      1 => 3,
-      2 => 4,
-      3 => 5 + ctx::choose(4),
-      _ => 9 + ctx::choose(8),
+    // one run in fifty is a LONG history: few clients, scripts of 10-40 operations, tens of keys and digests
+    // (thresholds, growth of the maps, the n-th repetition)
+    let long = !race_mode && ctx::chance(1, 50);
+    if long {
+      ctx::stat("probe.long_history");
+    }
+    let n_clients = if long {
+      2 + ctx::choose(3)
+    } else {
+      match ctx::weighted(&[4, 4, 3, 2, 1]) {
+        0 => 2,
+        1 => 3,
+        2 => 4,
+        3 => 5 + ctx::choose(4),
+        _ => 9 + ctx::choose(8),
+      }
     }
     .min(max_clients);
     let (yn, yd) = [(0u32, 1u32), (1, 8), (1, 3), (1, 2)][ctx::choose(4)];
-    let n_slots = 1 + ctx::choose(4);
-    let n_digests = 1 + ctx::choose(3);
+    let n_slots = if long { 8 + ctx::choose(40) } else { 1 + ctx::choose(4) };
+    let n_digests = if long { 1 + ctx::choose(24) } else { 1 + ctx::choose(3) };
     let invalid_bias = ctx::choose(4) as u32;
     let keygen_seed = ((ctx::draw_u32() as u64) << 32) | ctx::draw_u32() as u64;
     let keygen = Rc::new(RefCell::new(KeyGen::new(keygen_seed)));
@@ -884,7 +897,7 @@ impl Engine for KsEngine {
       }
     } else {
       for _ in 0..n_clients {
-        let len = 1 + ctx::choose(4);
+        let len = if long { 10 + ctx::choose(30) } else { 1 + ctx::choose(4) };
         scripts.push((0..len).map(|_| gen_op(n_slots, n_digests, invalid_bias)).collect());
       }
     }
